@@ -1335,6 +1335,10 @@ func tlsCases() {
 
 // boundary enumerates the fixed value pools in every mode (independent of -n and of the seed).
 func boundary(suite string, tier string) {
+	if suite == "src" {
+		srcBoundary(tier)
+		return
+	}
 	fields := allFields()
 	switch suite {
 	case "sweep":
@@ -1446,6 +1450,10 @@ func mangle(b []byte, r *common.Rng) string {
 }
 
 func random(suite string, k int) {
+	if suite == "src" {
+		srcRandom(k)
+		return
+	}
 	fields := allFields()
 	r := common.NewRng(common.Seed()).Fork(uint64(k))
 	if len(fields) == 0 {
@@ -1503,6 +1511,10 @@ func replay(line string) {
 		return
 	}
 	switch w[0] {
+	case "src":
+		if ops := kv(w, "ops"); ops != "" {
+			runSrc(strings.Split(ops, ","))
+		}
 	case "default":
 		if w[1] == "file" {
 			runDefaultFile()
